@@ -18,6 +18,49 @@ def vrepr(v: Version) -> str:
         loc = ".".join((f"n:{p}" if p.isdigit() else f"s:{p}") for p in v.local.split("."))
     return ";".join([str(v.epoch), ".".join(map(str, v.release)), pre, post, dev, loc])
 
+import re as _re
+from packaging.utils import canonicalize_name as _canon
+_VERSION_VARS = {"python_version", "python_full_version", "platform_release", "implementation_version"}
+_FLIP = {"<": ">", "<=": ">=", ">": "<", ">=": "<=", "==": "==", "!=": "!=", "~=": "~=", "===": "==="}
+def _leaf(lhs, op, rhs, env):
+    from packaging.markers import Variable
+    op = op.serialize()
+    if isinstance(lhs, Variable):
+        var, lit, rev = lhs.value, rhs.value, False
+    else:
+        var, lit, rev = rhs.value, lhs.value, True
+    if var == "extra":
+        active = {_canon(e) for e in env.get("extra", [])}
+        if op == "==": return _canon(lit) in active
+        if op == "!=": return _canon(lit) not in active
+        return "undefined"
+    val = env[var]
+    if var in _VERSION_VARS and op not in ("in", "not in"):
+        o = _FLIP[op] if rev else op
+        try:
+            return Specifier(o + lit).contains(val, prereleases=True)
+        except InvalidSpecifier:
+            return "undefined"
+    if rev:
+        if op == "in": return lit in val            # substring of the environment value
+        if op == "not in": return lit not in val
+    else:
+        toks = [t for t in _re.split(r"[ ,|]+", lit)]
+        if op == "in": return val in toks
+        if op == "not in": return val not in toks
+    if op == "==": return val == lit
+    if op == "!=": return val != lit
+    return "undefined"
+def ref_eval(markers, env):
+    groups = [[]]
+    for m in markers:
+        if isinstance(m, list): groups[-1].append(ref_eval(m, env))
+        elif isinstance(m, tuple): groups[-1].append(_leaf(*m, env))
+        elif m == "or": groups.append([])
+    flat = [x for g in groups for x in g]
+    if any(x == "undefined" for x in flat): return "undefined"
+    return any(all(g) for g in groups)
+
 def handle(req):
     cmd = req[0]
     if cmd == "version":
@@ -39,6 +82,21 @@ def handle(req):
         try:
             SpecifierSet(req[1]); return [True]
         except InvalidSpecifier:
+            return [False]
+    if cmd == "marker_eval":
+        # PEP 508 reference evaluation on packaging's own parse of the text; 'in'/'not in' lists by token,
+        # extras as a set (C06's statement); returns one truth value per environment
+        from packaging.markers import Marker, InvalidMarker
+        try:
+            m = Marker(req[1])
+        except InvalidMarker:
+            return ["badmarker"]
+        return ["ok"] + [ref_eval(m._markers, env) for env in req[2]]
+    if cmd == "marker_ok":
+        from packaging.markers import Marker, InvalidMarker
+        try:
+            Marker(req[1]); return [True]
+        except InvalidMarker:
             return [False]
     if cmd == "packaging_version":
         return [packaging.__version__, packaging.__file__]
